@@ -292,10 +292,13 @@ def run_job(job, unit_c, workdir, incdirs):
     canary_seen = False
     canary_failed = False
     unknown = []
+    group_trouble = ''
     for g in gresults:
         if g['reason']:
-            res['reason'] = g['reason']
-            return res
+            # a group that timed out / errored decides nothing - but a FAILURE found in another group is still a
+            # refutation: only when nothing failed does the trouble make the job undecided
+            group_trouble = group_trouble or g['reason']
+            continue
         for ob in g['obligations']:
             if ob['description'] == 'canary':
                 canary_seen = True
@@ -306,6 +309,11 @@ def run_job(job, unit_c, workdir, incdirs):
                 res['failed'].append(ob)
             elif ob['status'] != 'SUCCESS':
                 unknown.append(ob)
+    if group_trouble and not res['failed']:
+        res['reason'] = group_trouble
+        return res
+    if group_trouble:
+        res['undecided_groups'] = group_trouble
     if unknown and not res['failed']:
         res['reason'] = 'obligation %s has status %s' % (unknown[0]['name'], unknown[0]['status'])
         return res
